@@ -127,3 +127,15 @@ func specPlain4(p *packets.FrameParser) bool {
 //@ ensures[C10.send.wrap] ret0 != nil ==> noRepoErr(ret0)
 //@ lemma[C06.inject]      forall(b, 0, 65536, forall(a, 0, 256, forall(c, 0, 256, a != c ==> (b + a) % 65536 != (b + c) % 65536)))
 //@ modifies t.mu, t.sentProbes, TCPv4.buffer, ghost clock, ghost wrN, ghost wrClock
+
+//@ func (*tcpDriver).ReceiveProbe
+//@ safety C09
+//@ requires[pre.nonnil]     t != nil && t.source != nil && t.parser != nil && t.parser.parserv4 != nil && t.parser.parserv6 != nil && t.config != nil
+//@ requires[pre.sent]       len(t.sentProbes) >= 1
+//@ requires[pre.past]       forall(k, 0, len(t.sentProbes), t.sentProbes[k].sendTime <= now() && t.sentProbes[k].sendTime != 0)
+//@ ensures[C09.recv.xor]    (ret0 == nil) != (ret1 == nil)
+//@ ensures[C09.recv.class]  ret1 != nil && !chain(ret1, *common.ReceiveProbeNoPktError) && !chain(ret1, *common.BadPacketError) ==> ioFail
+//@ ensures[C09.recv.io]     ioFail == old(ioFail) || ret1 != nil
+//@ ensures[C01.recv.fresh]  ret0 != nil ==> fresh(ret0)
+//@ ensures[C09.recv.state]  len(t.sentProbes) == old(len(t.sentProbes)) && forall(k, 0, len(t.sentProbes), t.sentProbes[k] == old(t.sentProbes[k]))
+//@ modifies t.mu, packets.FrameParser.IP4, packets.FrameParser.IP6, packets.FrameParser.TCP, packets.FrameParser.ICMP4, packets.FrameParser.ICMP6, packets.FrameParser.Payload, packets.FrameParser.Layers, gopacket.DecodingLayerParser, elems(t.buffer), ghost clock, ghost ioFail
